@@ -4,7 +4,8 @@
 patch="$1"; tier="$2"; shift 2
 [ -f "$patch" ] || patch="/verif/mutants/$patch.patch"
 if [ -n "$(git -C /repo status --porcelain --untracked-files=no)" ]; then echo "/repo not clean"; exit 2; fi
-trap 'git -C /repo checkout -- . ; git -C /repo clean -fdq abra_core 2>/dev/null' EXIT
+# always revert, and rebuild the simulator from the clean tree so no stale binary is left behind
+trap 'git -C /repo checkout -- . ; git -C /repo clean -fdq abra_core 2>/dev/null; (cd /verif/sim && cargo build --offline >/dev/null 2>&1)' EXIT
 git -C /repo apply "$patch" || { echo "patch does not apply"; exit 2; }
 for p in "$@"; do
     out=$(/verif/check.sh "$p" "$tier" 2>&1); code=$?
